@@ -238,8 +238,9 @@ def r05_2(ctx, u) -> None:
 def r05_3(ctx) -> None:
     u = ctx.unit("heapq.merge")
     cfg = cfg_of(u)
-    refills = [n for n in cfg.nodes if n.kind == "await" and not n.tag and "pull_head" in norm(n.ast)]
-    ctx.check(bool(refills), "R05.3", u, "merge", "merge refills holders through pull_head()")
+    puller = c01.holder_roles(ctx)["puller"].node.name
+    refills = [n for n in cfg.nodes if n.kind == "await" and not n.tag and f".{puller}(" in norm(n.ast)]
+    ctx.check(bool(refills), "R05.3", u, "merge", f"merge refills holders through the holder's pulling method ({puller})")
     for r in refills:
         call = r.info.get("value")
         holder = norm(call.func.value) if isinstance(call, ast.Call) and isinstance(call.func, ast.Attribute) else None
@@ -250,7 +251,7 @@ def r05_3(ctx) -> None:
         for b in binds:
             path = find_path(b, lambda x: x is r, avoid=lambda x: x.kind == "yield" and norm(x.info.get("value")) == f"{holder}.head",
                              edge_ok=lambda a, lab, bb: lab not in ("e", "p"))
-            ctx.check(path is None, "R05.3", u, r, f"`{holder}.pull_head()` happens only after `{holder}.head` was yielded "
+            ctx.check(path is None, "R05.3", u, r, f"`{holder}.{puller}()` happens only after `{holder}.head` was yielded "
                       "(one head per source, refilled after yielding)", node=r, witness=pretty_path(path))
     # the initial fill takes exactly one head per source
     f = ctx.unit("heapq._KeyIter.from_iters")
